@@ -44,8 +44,7 @@ def backslash_only_line(replay):
     pat = r'(?:(?<=\n)|(?<=\r)|^)([ \t\f]*)\\(?:\r\n|\n|\r)[ \t\f]*'   # any of the three line ends, also after a lone CR
     if not re.search(pat, text):
         return False
-    # CPython resets the column at a form feed: what counts is the white space after the last one
-    fixed = re.sub(r'(?m)^[ \t\f]*\f', '', text)
+    fixed = re.sub(pat, lambda m: m.group(1), text)
     mod = importlib.import_module('harness.props.' + replay['property'])
     if hasattr(mod, 'recheck'):
         return mod.recheck(replay, fixed) is None
@@ -191,6 +190,8 @@ def nested_async_comprehension(replay):
     while leaf is not None:
         if leaf.type == 'keyword' and leaf.value == 'async' and leaf.parent.type == 'comp_for':
             cont = leaf.parent.parent
+            while cont.type in ('sync_comp_for', 'comp_for', 'comp_if'):
+                cont = cont.parent               # a later clause of the same comprehension
             is_genexp = cont.type == 'argument' or cont.type == 'testlist_comp' and cont.parent.children[0] == '('
             anc = cont.parent
             inside = False
